@@ -184,3 +184,55 @@ func checkLexerVsTypeSyntax(c *Ctx, rule string, f *FC) {
 		r.Undecided(rule, "scanTokenAt", "inventory", pos, sprintf("%d literal operator tokens found in scanTokenAt; 7 were confirmed by hand (|> || <> <= >= && ->)", len(texts)))
 	}
 }
+
+// checkBaseNameTables (C15.h): sibling tables of base type names agree.  The documented base types are recognised by
+// name tests in parseAtomType; any other function that compares a string with two or more of those names keeps a
+// second copy of the table (a look-ahead, a fast path) and must know all of them — a copy that forgets `float`
+// sends `slice.New<float> ()` down a different path than `slice.New<int> ()`.
+func checkBaseNameTables(c *Ctx, rule string, f *FC) {
+	r := c.R
+	base := []string{"any", "bool", "float", "int", "string"}
+	isBase := map[string]bool{}
+	for _, b := range base {
+		isBase[b] = true
+	}
+	n := 0
+	for _, fn := range f.Prog.Funcs {
+		set := map[string]bool{}
+		ir.Walk(f.N.Func(fn), func(t ir.Term) bool {
+			if b, ok := t.(*ir.BinOp); ok && (b.Op == "eq" || b.Op == "==" || b.Op == "ne" || b.Op == "!=") {
+				for _, side := range []ir.Term{b.L, b.R} {
+					if lit, ok := side.(*ir.Lit); ok && isBase[lit.Val] {
+						set[lit.Val] = true
+					}
+				}
+			}
+			if sm, ok := t.(*ir.StrMatch); ok {
+				for _, a := range sm.Arms {
+					for _, v := range a.Vals {
+						if lit, ok := v.(*ir.Lit); ok && isBase[lit.Val] {
+							set[lit.Val] = true
+						}
+					}
+				}
+			}
+			return true
+		})
+		if len(set) < 2 {
+			continue
+		}
+		n++
+		var missing []string
+		for _, b := range base {
+			if !set[b] {
+				missing = append(missing, b)
+			}
+		}
+		r.Check(len(missing) == 0, rule, fn.Name, "base-type-names", c.Pos(f.M.Fset, fn.Decl.Pos()),
+			"tests a name against all five documented base types",
+			"tests a name against "+strings.Join(sortedKeysB(set), ", ")+" but not "+strings.Join(missing, ", ")+": this copy of the base-type table disagrees with parseAtomType's, so a type expression starting with "+strings.Join(missing, "/")+" is treated differently from the other base types here")
+	}
+	if n < 1 {
+		r.Undecided(rule, "-", "tables", "fc", "no function tests names against the base types (anchor parseAtomType moved?)")
+	}
+}
